@@ -62,3 +62,9 @@ chk("C05", "model_checking",
     "Differential oracle (no hand-written expected values); typed literals, blank nodes and remote contexts are outside the alphabet; the RDF-equivalence check trusts json-gold's ToRDF.",
     "explicit-state depth-bounded search over rewrite sequences with text-level state deduplication and a differential oracle on the real implementation",
     "DESIGN.md §3 C05")
+
+chk("C15", "model_checking",
+    "Explicit-state search over meaning-preserving rewrites of the profile text: from 4 base profiles, every rewrite (quick: every single rewrite, and every pair for the sibling-quantifier profile; thorough: every pair everywhere) among key swaps, item swaps, prefix renaming/default-prefix substitution, quoting styles, flow/block style, comments, indentation, CRLF and trailing blanks; each successor is validated to denote the same abstract profile and its verdict on a data graph must equal the base spelling's.",
+    "Differential oracle; the equivalence check of successors uses yaml.v3 decoding plus IRI expansion with the declared and default prefixes.",
+    "explicit-state depth-bounded search over rewrite sequences with text-level deduplication and a differential oracle on the real implementation",
+    "DESIGN.md §3 C15")
